@@ -58,6 +58,7 @@ def run(ctx):
     ctx.rule("R03.10", "viewport state is saved and restored with the element context")
     ctx.rule("R03.12", "reify=True and reify=False give the same geometry: folding the matrix into rect / round-shape attributes is exact (obligations shared with C02)")
     ctx.rule("R03.13", "unit-bearing translations of nested transforms are accumulated by Length addition: every (unit, unit) cell of += is the CSS ratio (obligations shared with C12)")
+    ctx.rule("R03.14", "a rect's corner radii are clamped with the lengths resolved against ppi and viewport (obligations shared with C06 R06.2)")
     ctx.rule("R03.11", "the viewport transform each enclosing svg contributes is the SVG 2 8.2 one (obligations shared with C11)")
     fn = ctx.fn("SVG.parse", "R03.1")
     loop = [s for s in fn.body if isinstance(s, ast.For)]
@@ -91,6 +92,10 @@ def run(ctx):
     from . import c12
 
     c12.iadd(ctx.renamed("R03.13"))
+    c12.value_table(ctx.renamed("R03.13"))
+    from . import c06
+
+    c06.clamp_after_render(ctx.renamed("R03.14"))
 
 
 def viewport_state(ctx, fn, start, end):
